@@ -870,6 +870,9 @@ class Interp:
             if not is_for and var0 is not None:
                 var1 = spec['variant'](EnvView(fr.env))
                 ctx.oblige(f'var#{k}.decreases', z3.And(var0 >= 0, var1 < var0))
+            # vacuity guard: the end of the body must be reachable under the invariant (else its obligations hold vacuously);
+            # recorded per path, judged per loop (some branch of the body must reach its end)
+            ctx.oblige(f'cover.body#{k}', z3.BoolVal(True), expect='sat')
             raise PathEnd('loop body verified')
         else:
             if is_for:
